@@ -19,13 +19,14 @@ import EmbitModel.Driver.KeysX
 import EmbitModel.Driver.PsbtX
 import EmbitModel.Driver.Slip39X
 import EmbitModel.Driver.ViewX
+import EmbitModel.Driver.SignWith
 /-
   Native line-protocol driver over the executable model and spec (no Mathlib reachable from here).
   One request per line `op arg…`; one answer per line: `ok …`, `none` (model rejects), or `bad-op`.
 -/
 open Embit.Driver
 
-def handlers : List (String → List String → Option String) := [handleTx, handleHash, handleSighash, handlePsbt, handleBip39, handleMiniscript, handleView, handleSigCheck, handleSign, handleAddr, handleSecp, handleSlip39, handleHeap, handleLock, handleKeys, handleDescriptor, handleLiquid, handleKeysX, handlePsbtX, handleSlip39X, handleViewX]
+def handlers : List (String → List String → Option String) := [handleTx, handleHash, handleSighash, handlePsbt, handleBip39, handleMiniscript, handleView, handleSigCheck, handleSign, handleAddr, handleSecp, handleSlip39, handleHeap, handleLock, handleKeys, handleDescriptor, handleLiquid, handleKeysX, handlePsbtX, handleSlip39X, handleViewX, handleSignWith]
 
 def dispatch (line : String) : String :=
   match (line.splitOn " ").filter (· ≠ "") with
